@@ -5,6 +5,7 @@ Model construction from parse trees and the model API.
 from __future__ import annotations
 
 import traceback
+from bisect import bisect_right
 from collections import OrderedDict
 from collections.abc import Callable
 from contextlib import suppress
@@ -1097,6 +1098,10 @@ class ReferenceResolver:
         self.model = model
         self.pos_crossref_list = pos_crossref_list  # tool support
         self.delayed_crossrefs = []
+        # Positions of already resolved references per list attribute.
+        # Used to keep reference lists in textual order when some of the
+        # references are postponed: {(id(obj), attr_name): [position, ...]}
+        self._resolved_list_positions = {}
 
     def has_unresolved_crossrefs(self, obj, attr_name=None):
         """
@@ -1203,7 +1208,14 @@ class ReferenceResolver:
                 else:
                     resolved_crossref_count += 1
                     if attr.mult in [MULT_ONEORMORE, MULT_ZEROORMORE]:
-                        attr_value.append(resolved)
+                        # Insert at the textual position (postponed
+                        # references may resolve after later ones).
+                        positions = self._resolved_list_positions.setdefault(
+                            (id(obj), attr.name), []
+                        )
+                        idx = bisect_right(positions, crossref.position)
+                        positions.insert(idx, crossref.position)
+                        attr_value.insert(idx, resolved)
                     else:
                         setattr(obj, attr.name, resolved)
             else:  # crossref not in model
